@@ -1,7 +1,7 @@
 (* C11 property theorems: statements closed by [exact], each followed by Print Assumptions.
    All are over the verb models of C11/Model.v -- the definitions C11/Harness.v runs against the real mlr --
    for every input stream (no size bound), every count, every group-by list, every evaluation history / oracle. *)
-From Miller Require Import Base.Record C11.Model C11.Checkers C11.Proofs C11.Proofs2 C11.CheckerProofs.
+From Miller Require Import Base.Record C11.Model C11.Checkers C11.Proofs C11.Proofs2 C11.CheckerProofs C11.SampleProofs.
 From Coq Require Import Permutation.
 Open Scope Z_scope.
 
@@ -235,6 +235,14 @@ Theorem C11_checkers_correct :
 Proof. exact (conj check_shuffle_spec (conj check_bootstrap_spec check_sample_sound)). Qed.
 Print Assumptions C11_checkers_correct.
 
+(* ---- sample (reservoir per group): for EVERY sequence of draws (at least one per record) the model's output passes the
+   checker, i.e. (by C11_checkers_correct) it is, group by group in first-appearance order, a without-replacement
+   sample of min(k, group size) records of that group; records lacking a group-by field are dropped *)
+Theorem C11_sample_model_satisfies_checker : forall k fs ds l,
+  0 <= k -> (List.length l <= List.length ds)%nat -> check_sample k fs l (sample k fs ds l) = true.
+Proof. exact (fun k fs ds l Hk Hd => sample_passes_checker k fs Hk ds l Hd). Qed.
+Print Assumptions C11_sample_model_satisfies_checker.
+
 (* ---- non-vacuity: concrete streams meeting the hypotheses, with non-trivial outcomes *)
 Definition ex_stream : list record :=
   [ [(B "a", B "pan"); (B "b", B "1")]; [(B "a", B "eks"); (B "b", B "2")]; [(B "b", B "3")];
@@ -250,7 +258,8 @@ Example C11_nonvacuous :
      = Some [nth 1 ex_stream []; nth 2 ex_stream []; nth 5 ex_stream []]
   /\ forallb bool_or_absent [VTrue; VAbsent; VFalse; VTrue; VTrue; VAbsent] = true
   /\ unprepended (B "n") ex_stream
-  /\ shuffle [3; 3; 5; 0; 4; 5]%nat ex_stream <> ex_stream.
+  /\ shuffle [3; 3; 5; 0; 4; 5]%nat ex_stream <> ex_stream
+  /\ sample 1 [B "a"] [8; 1; 6; 0; 0; 0] ex_stream = [nth 5 ex_stream []; nth 1 ex_stream []].
 Proof.
   repeat split; try (vm_compute; reflexivity).
   - intros r Hr. cbn in Hr. repeat (destruct Hr as [<-|Hr]; [reflexivity|]). destruct Hr.
